@@ -32,8 +32,9 @@ THEOREMS = [
     "C08_replace_lookup",
     "C08_replace_key_is_identifier",
     "C08_fields_wire",
-    "C08_fields_distinct_excl",
-    "C08_fields_distinct_refuted",
+    "C08_fields_distinct_or_err",
+    "C08_fields_err_on_collision",
+    "C08_fields_ok_without_collision",
     "C08_defs_distinct_excl",
     "C08_defs_distinct_refuted",
     "C08_classes_satisfiable",
@@ -307,8 +308,12 @@ class Pipe:
 
     def check_props(self, names, case, res, has_extra=False):
         self.stats["props"] += 1
+        st = res.get("steps", [{}])[0]
         items = self.common("props", names, case, res)
         if items is None:
+            if st.get("r") in ("err", "panic"):
+                self.stats["props_rejected"] = self.stats.get("props_rejected", 0) + 1
+                return st.get("r")
             return None
         t = [i for i in items if i["name"] == "T" and i["kind"] == "struct"]
         if len(t) != 1 or t[0]["fields"]["k"] != "named":
@@ -327,20 +332,11 @@ class Pipe:
         for f in plain:
             if serde_rename(f["serde"]) == f["name"]:
                 self.bad("rename emitted although identifier equals the JSON name", case, res, field=f["name"])
-        # distinct within the struct
+        # distinct within the struct (C08-F1 / C08-F3 are fixed by 5896b59: duplicates are a violation again)
         dups = sorted({i for i in idents if idents.count(i) > 1})
         if dups:
             self.stats["dup_fields"] += 1
-            for d in dups:
-                srcs = [n for n in names if self.san.get(n, (None, None))[0] == d]
-                flat_dup = bool(flat) and flat[0]["name"] == d
-                if idents.count(d) == len(srcs) + (1 if flat_dup else 0) and (len(srcs) >= 2 or flat_dup):
-                    if len(srcs) >= 2:
-                        self.finding("C08-F1", {"properties": names, "duplicate_field": d})
-                    if flat_dup:
-                        self.finding("C08-F3", {"properties": names, "additionalProperties": True, "duplicate_field": d})
-                else:
-                    self.bad("duplicate field outside the listed classes", case, res, field=d, idents=idents)
+            self.bad("duplicate field identifiers in one struct", case, res, fields=dups, idents=idents)
         self.nfc(idents, names, "fields")
         return [(f["name"], serde_rename(f["serde"])) for f in plain]
 
@@ -612,6 +608,13 @@ def run(ctx):
                         for f, n in zip(sorted(it["fields"]["fields"], key=lambda f: f["name"]), sorted(names)):
                             if serde_rename(f["serde"]) is None:
                                 f["serde"].append(["rename", f["name"]])
+            if mutate == "no-field-unique-check" and kind == "props" and names == ["foo-bar", "foo_bar"]:
+                # emulates structs.rs:119-144 (fix 5896b59) removed: duplicate fields are emitted
+                res.clear()
+                res.update({"steps": [{"r": "ok", "id": 0}], "render": {"r": "ok", "scan": {"items": [
+                    {"mod": "", "kind": "struct", "name": "T", "fields": {"k": "named", "fields": [
+                        {"name": "foo_bar", "serde": [["rename", "foo-bar"]], "ty": "String", "vis": "pub"},
+                        {"name": "foo_bar", "serde": [], "ty": "String", "vis": "pub"}]}}]}}})
             if mutate == "no-x-fallback" and kind == "enum" and names == ["a", "a_"]:
                 # emulates type_entry.rs:258-268 removed: first-pass collision panics at once
                 res.clear()
@@ -627,7 +630,7 @@ def run(ctx):
     for (kind, names, case), res in zip(pcases, pres):
         if kind in ("props", "propsx"):
             o = pipe.check_props(names, case, res)
-            if o is not None and kind == "propsx":
+            if isinstance(o, list) and kind == "propsx":
                 o = o + [("extra", "flatten")] if pipe.last_flat == ["extra"] else o + [("?", "flatten-missing")]
         elif kind == "enum":
             o = pipe.check_enum(names, case, res)
@@ -635,6 +638,10 @@ def run(ctx):
             o = pipe.check_defs(names, case, res)
         observed.append(o)
         ctx.nontrivial.add(kind + ":" + json.dumps(names))
+    for c, o in zip(corpus, observed[:len(corpus)]):
+        if c.get("expect") == "rejected" and o != "err":
+            pipe.viol.append({"kind": "regression of a fixed finding: colliding names are no longer rejected at add time",
+                              "input": c, "observed": o})
     ctx.evaluations += len(pcases)
     ctx.coverage["pipeline_cases"] = len(pcases)
     ctx.coverage["pipeline_stats"] = pipe.stats
@@ -654,14 +661,19 @@ def run(ctx):
             return "show_list (List.map show_ustring (def_idents cls %s))" % l
         pshards = shard_by_table(rows, pcases, lambda it: "".join(it[1]), expr, 200)
         pmres = eval_shards("c08p", pshards)
-        for (kind, names, case), o, m in zip(pcases, observed, pmres):
+        for (kind, names, case), o, m, res in zip(pcases, observed, pmres, pres):
             if kind in ("props", "propsx"):
                 if o is None:
                     e = "rejected"
+                elif isinstance(o, str):
+                    e = o
                 else:
                     e = ",".join(sorted((show(cps(x[0])) + "/flatten") if x[1] in ("flatten", "flatten-missing")
                                         else fmt_pairs([x]) for x in o))
                 mm = ",".join(sorted(m.split(","))) if m else ""
+                if isinstance(o, str) and o == "err" and m == "err" and "multiple properties map to the same field name" \
+                        not in res.get("steps", [{}])[0].get("msg", ""):
+                    e = "err(other reason): " + str(res.get("steps"))
             elif kind == "enum":
                 if o is None:
                     e = "rejected"
